@@ -128,6 +128,9 @@ func (w *Watcher) getGovernanceEventsByTxId(
 		if event.EventIndex != WormholeMessageEventIndex {
 			continue
 		}
+		if event.ContractAddress != address {
+			continue
+		}
 
 		header, err := client.GetBlockHeader(ctx, event.BlockHash)
 		if err != nil {
